@@ -66,6 +66,49 @@ pub enum Acc {
     Wrapped,
     /// `Acceptor` with TLS
     Tls,
+    /// `Acceptor` over a listener with a backlog (as a TCP or Unix listener has): the faulty client's connection
+    /// is established, written to (and possibly closed) BEFORE the accept loop picks it up
+    Backlog,
+    /// the same with TLS
+    BacklogTls,
+}
+
+/// A listener with a backlog: connections queued by `Backlog::push` are handed out first, then whatever the
+/// in-memory duplex listener accepts. What is handed out is the library's own `DuplexStream`.
+pub struct BacklogIncoming {
+    queue: Backlog,
+    inner: duplex::DuplexIncoming,
+}
+
+#[derive(Clone, Default)]
+pub struct Backlog(Arc<std::sync::Mutex<(std::collections::VecDeque<duplex::DuplexStream>, Option<std::task::Waker>)>>);
+
+impl Backlog {
+    fn push(&self, s: duplex::DuplexStream) {
+        let w = {
+            let mut g = self.0.lock().unwrap();
+            g.0.push_back(s);
+            g.1.take()
+        };
+        if let Some(w) = w {
+            w.wake();
+        }
+    }
+}
+
+impl hyperdriver::server::conn::Accept for BacklogIncoming {
+    type Conn = duplex::DuplexStream;
+    type Error = std::io::Error;
+    fn poll_accept(mut self: Pin<&mut Self>, cx: &mut Context<'_>) -> Poll<Result<Self::Conn, Self::Error>> {
+        {
+            let mut g = self.queue.0.lock().unwrap();
+            if let Some(s) = g.0.pop_front() {
+                return Poll::Ready(Ok(s));
+            }
+            g.1 = Some(cx.waker().clone());
+        }
+        hyperdriver::server::conn::Accept::poll_accept(Pin::new(&mut self.inner), cx)
+    }
 }
 
 #[derive(Clone, Debug)]
@@ -108,7 +151,23 @@ pub fn good_request_bytes(id: u32) -> Vec<u8> {
     v
 }
 
-async fn faulty_client(client: DuplexClient, fault: Fault, obs: Obs, stall: Gate) {
+async fn faulty_client(client: DuplexClient, fault: Fault, obs: Obs, stall: Gate, backlog: Option<Backlog>) {
+    if let (Some(b), Fault::Bytes { bytes, stall: do_stall, .. }) = (&backlog, &fault) {
+        // the bytes are in the connection's buffer (and, without a stall, the client is gone) before the listener
+        // hands the connection to the accept loop
+        let (mut mine, theirs) = duplex::DuplexStream::new(4096);
+        let _ = mine.write_all(bytes).await;
+        let _ = mine.flush().await;
+        if *do_stall {
+            b.push(theirs);
+            stall.wait().await;
+            drop(mine);
+        } else {
+            drop(mine);
+            b.push(theirs);
+        }
+        return;
+    }
     match fault {
         Fault::None | Fault::HandlerError => {}
         Fault::ConnectCancel(n) => {
@@ -194,6 +253,7 @@ pub fn run_one(scn: &Scn, schedule: &[usize], tls: Option<&super::tlsfix::TlsFix
     let mut s = Sched::new(schedule.to_vec());
     let obs = new_obs();
     let (client, incoming) = duplex::pair();
+    let backlog = Backlog::default();
     let fail_id = if scn.fault == Fault::HandlerError { 77 } else { 0 };
     match scn.acc {
         Acc::Duplex => spawn_plain_server!(s, incoming, obs, fail_id),
@@ -202,12 +262,18 @@ pub fn run_one(scn: &Scn, schedule: &[usize], tls: Option<&super::tlsfix::TlsFix
             let cfg = tls.expect("tls fixture").server_config.clone();
             spawn_plain_server!(s, Acceptor::from(incoming).with_tls(cfg), obs, fail_id)
         }
+        Acc::Backlog => spawn_plain_server!(s, Acceptor::new(BacklogIncoming { queue: backlog.clone(), inner: incoming }), obs, fail_id),
+        Acc::BacklogTls => {
+            let cfg = tls.expect("tls fixture").server_config.clone();
+            spawn_plain_server!(s, Acceptor::new(BacklogIncoming { queue: backlog.clone(), inner: incoming }).with_tls(cfg), obs, fail_id)
+        }
     }
     let hold = Gate::new();
     let stall = Gate::new();
     hold.open(); // well-behaved clients release their connection as soon as they are done
     let connector = tls.map(|t| t.any_cert_connector.clone());
-    let is_tls = scn.acc == Acc::Tls;
+    let is_tls = matches!(scn.acc, Acc::Tls | Acc::BacklogTls);
+    let use_backlog = matches!(scn.acc, Acc::Backlog | Acc::BacklogTls);
     if scn.good_in_flight {
         if is_tls {
             s.spawn("good1", super::tlsfix::tls_good_client(client.clone(), s.exec.clone(), connector.clone().unwrap(), 1, obs.clone()));
@@ -222,7 +288,7 @@ pub fn run_one(scn: &Scn, schedule: &[usize], tls: Option<&super::tlsfix::TlsFix
             s.spawn("faulty", raw_client(client.clone(), s.exec.clone(), Proto::H1, 77, 1024, obs.clone(), hold.clone()));
         }
     } else if scn.fault != Fault::None {
-        s.spawn("faulty", faulty_client(client.clone(), scn.fault.clone(), obs.clone(), stall.clone()));
+        s.spawn("faulty", faulty_client(client.clone(), scn.fault.clone(), obs.clone(), stall.clone(), if use_backlog { Some(backlog.clone()) } else { None }));
     }
     // after everything has gone quiet: the server must still be serving; a probe must be served
     let obs_p = obs.clone();
@@ -350,7 +416,31 @@ pub fn faults(thorough: bool, tls: Option<&super::tlsfix::TlsFixture>) -> Vec<(A
         // complete hello followed by a fatal alert (bad certificate) instead of the client's flight
         let mut h = hello.clone();
         h.extend_from_slice(&[0x15, 0x03, 0x03, 0x00, 0x02, 0x02, 0x2a]);
-        v.push((acc, Fault::Bytes { name: "hello-then-bad-certificate-alert", bytes: h, stall: false }));
+        v.push((acc, Fault::Bytes { name: "hello-then-bad-certificate-alert", bytes: h.clone(), stall: false }));
+        // a listener with a backlog: what the client wrote is already buffered (and the client may be gone) when the
+        // connection reaches the accept loop — a handshake can fail on its very first poll
+        let acc = Acc::BacklogTls;
+        v.push((acc, Fault::Bytes { name: "backlog-plaintext-to-tls", bytes: good.clone(), stall: false }));
+        v.push((acc, Fault::Bytes { name: "backlog-plaintext-to-tls", bytes: good.clone(), stall: true }));
+        v.push((acc, Fault::Bytes { name: "backlog-nothing", bytes: vec![], stall: false }));
+        v.push((acc, Fault::Bytes { name: "backlog-hello-then-bad-certificate-alert", bytes: h, stall: false }));
+        let step = if thorough { 1 } else { 16 };
+        for k in (0..=hello.len()).step_by(step) {
+            for stall in [false, true] {
+                v.push((acc, Fault::Bytes { name: "backlog-client-hello-truncated", bytes: hello[..k].to_vec(), stall }));
+            }
+        }
+    }
+    {
+        let acc = Acc::Backlog;
+        v.push((acc, Fault::Bytes { name: "backlog-nothing", bytes: vec![], stall: false }));
+        v.push((acc, Fault::Bytes { name: "backlog-garbage", bytes: b"\x00\xff\x10garbage\r\n\r\n".to_vec(), stall: false }));
+        v.push((acc, Fault::Bytes { name: "backlog-h2-preface-then-garbage", bytes: [crate::props::iomc::PREFACE, b"xxxxxxxxxxxxxxxx"].concat(), stall: false }));
+        for k in [1usize, 10, 40, good.len() - 1, good.len()] {
+            for stall in [false, true] {
+                v.push((acc, Fault::Bytes { name: "backlog-request-truncated", bytes: good[..k].to_vec(), stall }));
+            }
+        }
     }
     v
 }
